@@ -62,6 +62,10 @@ thread_local! {
     static GRAVE: std::cell::RefCell<Vec<Vec<u8>>> = const { std::cell::RefCell::new(Vec::new()) };
 }
 
+fn sizes_len_hint() -> u64 {
+    40
+}
+
 fn rawnum_default() -> bool {
     cfg!(feature = "arbitrary_precision")
 }
@@ -491,6 +495,108 @@ pub fn families(tier: Tier, _variant: &str, mode: Mode) -> Vec<Family> {
             Mode::RoundTrip => check_roundtrip(ctx, d.as_bytes()),
         }
     }));
+    // a whitespace run of every length 0..N (all four whitespace bytes) at every gap of a document
+    // whose tokens change meaning when their first byte is lost
+    {
+        let mut docs = crate::props::c02::ws_run_docs(if q { 140 } else { 300 });
+        for run in 0..(if q { 140usize } else { 300 }) {
+            let ws = " ".repeat(run);
+            docs.push(format!("[120,{ws}-57,{ws}\"ab\",{ws}[{ws}-1.5e3{ws}]{ws},{{\"k\":{ws}12{ws}}}]").into_bytes());
+        }
+        v.push(Family::of_vec("whitespace-runs", docs, move |d, ctx| match mode {
+            Mode::Tree => check_tree(ctx, d, &gen::FRAMINGS_2[..1]),
+            Mode::RoundTrip => check_roundtrip(ctx, d),
+        }));
+    }
+    // number literals at the edges of the f64 range, bare and embedded
+    {
+        let mut docs: Vec<Vec<u8>> = vec![];
+        for n in gen::range_edge_numbers() {
+            docs.push(n.clone().into_bytes());
+            docs.push(format!("[{n},{{\"k\":{n}}}]").into_bytes());
+        }
+        v.push(Family::of_vec("range-edge-numbers(accepted only)", docs, move |d, ctx| match mode {
+            Mode::Tree => check_tree(ctx, d, gen::FRAMINGS_2),
+            Mode::RoundTrip => check_roundtrip(ctx, d),
+        }));
+    }
+    // sequences of documents parsed one after the other on one fresh thread (the thread-local
+    // node buffer and scratch buffers are carried from one parse to the next): flat and nested
+    // documents of ascending, descending and alternating sizes
+    {
+        let mut seqs: Vec<Vec<usize>> = vec![];
+        seqs.push((1..=40).map(|i| i * 13).collect()); // ascending, ratio < 2
+        seqs.push((1..=40).rev().map(|i| i * 13).collect());
+        seqs.push(vec![300, 500, 700, 1100, 1200, 3000, 3100, 20_000, 30_000, 31_000, 7]);
+        seqs.push((0..30).map(|i| if i % 2 == 0 { 5 } else { 200 + i * 37 }).collect());
+        seqs.push(vec![1, 2, 3, 5, 8, 13, 21, 34, 55, 89, 144, 233, 255, 256, 257, 377, 511, 512, 513, 610, 987, 1597]);
+        for shape in 0..3usize {
+            let ss = seqs.clone();
+            v.push(Family::of_vec(&format!("document-sequences-on-one-thread/shape{shape}"), ss, move |sizes, ctx| {
+                let sizes = sizes.clone();
+                let r = std::thread::Builder::new()
+                    .stack_size(64 << 20)
+                    .spawn(move || {
+                        let mut bad: Vec<String> = vec![];
+                        for (k, n) in sizes.iter().enumerate() {
+                            // (objects: the reference comparison looks every key up, keep them smaller)
+                            let n = &(if shape == 1 { (*n).min(2500) } else { *n });
+                            let doc = match shape {
+                                0 => format!("[{}]", (0..*n).map(|i| (i % 97).to_string()).collect::<Vec<_>>().join(",")),
+                                1 => format!("{{{}}}", (0..*n).map(|i| format!("\"k{i}\":[{i},\"v\\n{i}\"]")).collect::<Vec<_>>().join(",")),
+                                _ => format!("[{}]", (0..*n).map(|i| format!("{{\"a\":{{\"b\":[{i}]}}}}")).collect::<Vec<_>>().join(" , ")),
+                            };
+                            let root = refjson::parse_doc(doc.as_bytes(), RMode::Decode).expect("generated document");
+                            let res = guard(|| match mode {
+                                Mode::Tree => {
+                                    let v: Value = sonic_rs::from_str(&doc).map_err(|e| format!("rejected: {}", e.to_string().lines().next().unwrap_or("")))?;
+                                    walk::cmp_value(&v, &root, doc.as_bytes(), rawnum_default())?;
+                                    // and through the copying parser (second stream document)
+                                    let two = format!("0 {doc}");
+                                    let mut st = Deserializer::from_str(&two).into_stream::<Value>();
+                                    let _ = st.next();
+                                    let w = st.next().ok_or("stream ended")?.map_err(|e| format!("rejected as stream document: {}", e.to_string().lines().next().unwrap_or("")))?;
+                                    let n2 = refjson::parse_value_at(two.as_bytes(), 2, RMode::Decode).map_err(|_| "reference")?;
+                                    walk::cmp_value(&w, &n2, two.as_bytes(), rawnum_default())
+                                }
+                                Mode::RoundTrip => {
+                                    let v: Value = sonic_rs::from_str(&doc).map_err(|e| format!("rejected: {}", e.to_string().lines().next().unwrap_or("")))?;
+                                    let s = sonic_rs::to_string(&v).map_err(|e| e.to_string())?;
+                                    let again = refjson::parse_doc(s.as_bytes(), RMode::Decode).map_err(|r| format!("output not well-formed: {:?}", r.reason))?;
+                                    let (mut a, mut b) = (String::new(), String::new());
+                                    root.dump(&mut a);
+                                    again.dump(&mut b);
+                                    if a != b {
+                                        return Err("serialized text denotes another tree".to_string());
+                                    }
+                                    Ok(())
+                                }
+                            });
+                            match res {
+                                Ok(Ok(())) => {}
+                                Ok(Err(m)) => bad.push(format!("document {k} of the sequence ({n} members): {m}")),
+                                Err(p) => bad.push(format!("document {k} of the sequence ({n} members): panic {p}")),
+                            }
+                        }
+                        bad
+                    })
+                    .unwrap()
+                    .join();
+                ctx.state();
+                ctx.calls(sizes_len_hint());
+                ctx.nontrivial();
+                match r {
+                    Ok(bad) if bad.is_empty() => ctx.outcome("equal"),
+                    Ok(bad) => {
+                        for m in bad.into_iter().take(3) {
+                            ctx.violation("sequence-on-one-thread", json!({"shape": shape, "mismatch": m}));
+                        }
+                    }
+                    Err(_) => ctx.violation("panic/sequence-thread", json!({"shape": shape})),
+                }
+            }));
+        }
+    }
     // corpus documents of the repository (long, realistic: beyond the length of every sweep)
     {
         let docs: Vec<(String, Vec<u8>)> = gen::corpus();
